@@ -156,10 +156,13 @@ void Format::formatDateTime( std::ostream& dest, const Field& field_def,
    auto const  use_format_str = field_def.mConstant.empty() ? format_str :
                                 field_def.mConstant.c_str();
    char        timestamp_str[ 128];
+   struct tm   broken_down_time;
 
 
+   // localtime() returns a pointer to an object that all threads share
+   ::localtime_r( &timestamp, &broken_down_time);
    ::strftime( timestamp_str, sizeof( timestamp_str) - 1, use_format_str,
-               ::localtime( &timestamp));
+               &broken_down_time);
    append( dest, field_def, timestamp_str);
 
 } // Format::formatDateTime
